@@ -207,7 +207,14 @@ pub fn lib_eval(text: &str, expr: &str, ns: &[(String, String)]) -> Option<Outco
 // ------------------------------------------------------------------------------------------------
 // shared case construction
 
-pub struct XCase { pub doc: Doc, pub text: String, pub tree: RTree, pub subj: Subject, pub ns: Vec<(String, String)> }
+/// `alts`: the same tree with the attribute nodes of each element in other relative orders (XPath leaves that
+/// order to the implementation); empty if no element has two attributes
+pub struct XCase { pub doc: Doc, pub text: String, pub tree: RTree, pub alts: Vec<RTree>, pub subj: Subject, pub ns: Vec<(String, String)> }
+
+pub fn alt_trees(doc: &Doc, tree: &RTree) -> Vec<RTree> {
+    let most = tree.nodes.iter().map(|n| n.attrs.len()).max().unwrap_or(0);
+    match most { 0 | 1 => vec![], 2 => vec![RTree::build_ord(doc, 1)], _ => (1..=3).map(|o| RTree::build_ord(doc, o)).collect() }
+}
 
 /// generator profile for XPath documents: everything XPath can see; see known_findings.json for the exclusions
 pub fn xdoc_cfg() -> GenCfg {
@@ -220,12 +227,13 @@ pub fn make_case(r: &mut Rng, cfg: GenCfg) -> Result<XCase, String> {
     let doc = { let mut g = Gen::new(r, cfg); g.doc() };
     let text = model::render(&doc, r, Style { minimal: false });
     let tree = RTree::build(&doc);
+    let alts = alt_trees(&doc, &tree);
     let subj = subject(&text, true)?;
     // caller bindings: the document's own prefixes bound to the same URIs where unambiguous, plus a renamed one
     let mut ns: Vec<(String, String)> = vec![];
     fn walk(e: &model::Elem, ns: &mut Vec<(String, String)>) { for (p, u) in &e.nsdecls { if let Some(p) = p { if !u.is_empty() && !ns.iter().any(|x| &x.0 == p) { ns.push((p.clone(), u.clone())); } } } for c in &e.children { if let model::Node::Elem(x) = c { walk(x, ns); } } }
     walk(&doc.root, &mut ns);
-    Ok(XCase { doc, text, tree, subj, ns })
+    Ok(XCase { doc, text, tree, alts, subj, ns })
 }
 
 fn raw_equals_merged(doc: &Doc) -> bool {
@@ -255,25 +263,41 @@ pub fn judge_ns(case: &XCase, e: &Expr, estr: &str, subj: &Subject, ns: &[(Strin
 pub fn judge_outcomes(case: &XCase, e: &Expr, estr: &str, ns: &[(String, String)], exp: &Outcome, got: &Outcome) -> Judgement {
     let kind = match diff(exp, got) { None => return Judgement::Agree, Some(k) => k };
     if kind == "panic" || kind == "steps" { return Judgement::Violation { kind, detail: format!("expected {} observed {}", exp.brief(), got.brief()) }; }
+    // the relative order of the attribute nodes of one element is implementation dependent: any of them is right
+    let mut order_open = false;
+    for t in &case.alts {
+        let ea = ref_eval(t, e, ns, None);
+        if diff(&ea, got).is_none() { return Judgement::Agree; }
+        if diff(exp, &ea).is_some() { order_open = true; }
+    }
     // is the disagreement explained exactly by recorded findings?
     let mut excluded: Option<u32> = None;
     for m in masks_by_popcount() {
-        let (em, tainted) = ref_eval_dev(&case.tree, e, ns, None, xp::Dev::from_mask(m));
-        if tainted { if excluded.is_none() { excluded = Some(m); } continue; }
-        if diff(&em, got).is_none() { return Judgement::Deviation { mask: m, excluded: false }; }
+        for t in std::iter::once(&case.tree).chain(case.alts.iter()) {
+            let (em, tainted) = ref_eval_dev(t, e, ns, None, xp::Dev::from_mask(m));
+            if tainted { if excluded.is_none() { excluded = Some(m); } continue; }
+            if diff(&em, got).is_none() { return Judgement::Deviation { mask: m, excluded: false }; }
+        }
     }
     if let Some(m) = excluded { return Judgement::Deviation { mask: m, excluded: true }; }
+    if order_open { return Judgement::Inconclusive("the value depends on the relative order of one element's attributes, which XPath leaves open".into()); }
     // O3 must side with O2 (number -> string is decided by O2 alone: libxml2 prints exponents)
     match lib_eval(&case.text, estr, ns) {
         Some(l) => {
             if let Some(k2) = diff(exp, &l) {
-                let single = matches!((exp, &l), (Outcome::Str(a), Outcome::Str(b)) if a.contains(|c: char| c.is_ascii_digit()) && b.contains("e+") || b.contains("e-"));
+                let single = matches!((exp, &l), (Outcome::Str(a), Outcome::Str(b)) if a.contains(|c: char| c.is_ascii_digit()) && has_exponent(b));
                 if !single { return Judgement::Inconclusive(format!("O2 {} vs O3 {} ({})", exp.brief(), l.brief(), k2)); }
             }
         }
         None => return Judgement::Inconclusive("libxml2 unavailable for this case".into()),
     }
     Judgement::Violation { kind, detail: format!("expected {} observed {}", exp.brief(), got.brief()) }
+}
+
+/// a number printed with an exponent (digit, 'e', sign, digit) occurs in the string
+fn has_exponent(s: &str) -> bool {
+    let b = s.as_bytes();
+    (1..b.len().saturating_sub(2)).any(|i| b[i] == b'e' && b[i - 1].is_ascii_digit() && (b[i + 1] == b'+' || b[i + 1] == b'-') && b[i + 2].is_ascii_digit())
 }
 
 fn features_sig(e: &Expr) -> String { xp::feature_set(e).into_iter().filter(|f| !matches!(f.as_str(), "num" | "lit" | "abs")).collect::<Vec<_>>().join("+") }
@@ -818,7 +842,7 @@ fn c09_case() -> Option<XCase> {
     let text = "<r xml:lang=\"en-US\"> 12 </r>".to_string();
     let tree = RTree::build(&doc);
     let subj = subject(&text, true).ok()?;
-    Some(XCase { doc, text, tree, subj, ns: vec![] })
+    Some(XCase { alts: alt_trees(&doc, &tree), doc, text, tree, subj, ns: vec![] })
 }
 
 fn c09_one(ctx: &mut Ctx, idx: u64, case: &XCase, what: &str, classes: &str, e: &Expr) {
